@@ -768,7 +768,7 @@ def run_check(pid, tier, seed):
     # a crash (signal / abort) of the real code in any stage that decides this property is a violation of it:
     # the behaviour the property describes did not happen, and memory safety (C01 / C03) is gone
     if True:
-        for c in (hangs if pid == 'C06' else crashes):
+        for c in ((hangs + crashes) if pid == 'C06' else crashes):
             path = os.path.join(REPLAYS, '%s-crash-%s.json' % (pid, hashlib.sha256(json.dumps(c['params'], sort_keys=True).encode()).hexdigest()[:10]))
             os.makedirs(REPLAYS, exist_ok=True)
             with open(path, 'w') as fh:
